@@ -250,9 +250,7 @@ func (ex *Exec) ByteArrayPtr(st *State, t *sym.Term, name string) *Ptr {
 
 // SymBytes makes a byte-string symbol of known length.
 func SymBytes(name string, n int, taint uint64) *sym.Term {
-	t := sym.SymT(sym.Bytes, name, taint)
-	sym.SetBytesLen(t, n)
-	return t
+	return sym.SymSized(name, n, taint)
 }
 
 // ElemPtr returns the address of element i of the array p points to.
